@@ -138,6 +138,12 @@ def _matrix_checks(A, data, F, seed, stat_sfx=""):
     F.cmp("Spurrier(A): unit norm", q @ q, 1.0, 1e-12, data, "spurrier_unit")
     F.cmp("Spurrier(A): quaternion reproduces A", _unnorm_quat_R(q), A, 1e-9, data, "spurrier_rep")
     F.cmp("Exp_SO3_quat(Spurrier(A)) vs A", Exp_SO3_quat(q), A, 1e-9, data, "spurrier_Exp")
+    # results of earlier calls must not be changed by later calls (no buffers shared between calls)
+    prev = getattr(_matrix_checks, "_prev", None)
+    if prev is not None:
+        for name, ref, copy in prev:
+            F.cmp(name + ": result of an earlier call is not modified by a later call", ref, copy, 0.0, data, "alias")
+    _matrix_checks._prev = [("Spurrier", q, q.copy()), ("Log_SO3", psi, psi.copy())]
     for r in translations(seed)[2:]:
         H = SE3(A, r)
         h = Log_SE3(H)
